@@ -2228,6 +2228,11 @@ func (dsc *dataStoreCommand) getHashTableRandField(keyName string, count *int, w
 		if count == nil {
 			arraySize = 1
 		} else {
+			// same limit as redis: -LONG_MAX/2 (negating the smallest integer overflows)
+			if *count < -(math.MaxInt64 / 2) {
+				output.data = respErrorString("ERR value is out of range")
+				return
+			}
 			arraySize = -(*count)
 		}
 
@@ -2243,7 +2248,7 @@ func (dsc *dataStoreCommand) getHashTableRandField(keyName string, count *int, w
 		}
 
 		// strange redis behavior - RESP2 returns flat array, RESP3 returns array of pairs (a pair is an array of 2)
-		pairs := make(respPairs, 0, arraySize)
+		pairs := make(respPairs, 0, len(items))
 		for _, item := range items {
 			pair := respPair{
 				key:   nativeValueToResp(item.key),
@@ -2253,7 +2258,7 @@ func (dsc *dataStoreCommand) getHashTableRandField(keyName string, count *int, w
 		}
 		output.data = pairs
 	} else {
-		a := make([]string, 0, arraySize)
+		a := make([]string, 0, len(items))
 		for _, item := range items {
 			a = append(a, item.key)
 		}
@@ -2508,6 +2513,11 @@ func (dsc *dataStoreCommand) getSetRandMember(keyName string, count *int) (outpu
 		if count == nil {
 			arraySize = 1
 		} else {
+			// same limit as redis: -LONG_MAX/2 (negating the smallest integer overflows)
+			if *count < -(math.MaxInt64 / 2) {
+				output.data = respErrorString("ERR value is out of range")
+				return
+			}
 			arraySize = -(*count)
 		}
 
@@ -2517,7 +2527,7 @@ func (dsc *dataStoreCommand) getSetRandMember(keyName string, count *int) (outpu
 		items = m.pickUniqueRandomItems(arraySize, 85)
 	}
 
-	a := make([]string, 0, arraySize)
+	a := make([]string, 0, len(items))
 	for _, item := range items {
 		a = append(a, item.key)
 	}
